@@ -24,7 +24,7 @@ pub open spec fn first_crlf(w: Seq<u8>) -> int decreases w.len() {
 /// a header line: everything up to the first CRLF, which must come within 16 KiB; (line without CRLF, bytes consumed)
 pub open spec fn strict_line(w: Seq<u8>) -> Option<(Seq<u8>, int)> {
     let i = first_crlf(w);
-    if 1 <= i < w.len() && i + 1 <= 16384 { Some((w.take(i - 1), i + 1)) } else { None }
+    if 1 <= i < w.len() && i + 1 <= HEAD_LINE_MAX { Some((w.take(i - 1), i + 1)) } else { None }
 }
 /// what parsing the rest of the header block yields, given the fields accumulated so far: (fields, unread wire)
 pub open spec fn rest(w: Seq<u8>, acc: Seq<(Seq<u8>, Seq<u8>)>, max: nat) -> Option<(Seq<(Seq<u8>, Seq<u8>)>, Seq<u8>)>
@@ -129,7 +129,7 @@ pub open spec fn rfc_field(f: (Seq<u8>, Seq<u8>)) -> bool {
     n.len() >= 1 && hn_ok(n) && no_byte(n, 58u8) && no_byte(n, 32u8) && no_byte(n, 10u8) && no_byte(n, 13u8)
         && hv_ok(v) && no_byte(v, 10u8) && no_byte(v, 13u8)
         && (v.len() > 0 ==> v[0] != 32u8 && v[v.len() - 1] != 32u8)
-        && n.len() + v.len() + 4 <= 16384
+        && n.len() + v.len() + 4 <= HEAD_LINE_MAX
 }
 pub open spec fn field_line(f: (Seq<u8>, Seq<u8>)) -> Seq<u8> { f.0 + seq![58u8, 32u8] + f.1 }   // "name: value"
 pub open spec fn head_fields(fs: Seq<(Seq<u8>, Seq<u8>)>) -> Seq<u8> decreases fs.len() {
@@ -234,7 +234,7 @@ proof fn lemma_trim_lead_sp(v: Seq<u8>)
 }
 /// a line without LF, followed by CRLF, is read back exactly
 proof fn lemma_strict_line(l: Seq<u8>, tail: Seq<u8>)
-    requires no_byte(l, 10u8), l.len() + 2 <= 16384,
+    requires no_byte(l, 10u8), l.len() + 2 <= HEAD_LINE_MAX,
     ensures strict_line(l + crlf() + tail) == Some((l, l.len() as int + 2)),
 {
     let w = l + crlf() + tail;
